@@ -1127,6 +1127,14 @@ impl<'a> RepositoryUpdate<'a> {
             }
         }
 
+        // The deltas we are going to apply must be consecutive.
+        if deltas.windows(2).any(|w| {
+            w[0].serial().checked_add(1) != Some(w[1].serial())
+        }) {
+            self.log.debug(format_args!("Gap in delta list."));
+            return Err(SnapshotReason::BadDeltaSet)
+        }
+
         if deltas.len() > self.collector.config.max_delta_count {
             self.log.debug(format_args!(
                 "Too many delta steps required ({})", deltas.len()
